@@ -29,13 +29,15 @@ OPS = [
 def explore(schema, query, variables, world, config, exp, cap, w, eager=()):
     """all completion orders (stateless DFS) up to `cap` schedules; returns (runs, tasks_max, failures)"""
     fails, runs, tmax = [], 0, 0
+    kinds = w.setdefault("_outcomes", set()) if isinstance(w, dict) else set()
     prefix = []
     while prefix is not None and runs < cap:
         sched = H.Schedule(prefix)
         got = H.run_request(schema, query, variables, world, config, schedule=sched, eager=eager)
         runs += 1
         tmax = max(tmax, got.get("tasks", 0))
-        ww = dict(w, config=config, schedule=list(sched.taken), completed_at_submit=sorted(eager))
+        kinds.add(got["outcome"])
+        ww = dict({k: v for k, v in w.items() if k != "_outcomes"}, config=config, schedule=list(sched.taken), completed_at_submit=sorted(eager))
         if got["outcome"] == "pending":
             fails.append(("execute:completes-when-all-resolvers-completed", ww, "all parked resolver tasks were run but the overall result is still pending"))
         else:
@@ -53,12 +55,14 @@ def _chunk(args):
         ref_schema = H.make_schema()
         exp = H.reference(ref_schema, query, variables, world)
         w = {"query": query, "world": wname, "deferred": [".".join(x) for x in dset]}
+        w["_outcomes"] = set()
         for cfg in ("blocking-executor", "executor-blocking"):
             got = H.run_request(H.make_schema(dset), query, variables, world, cfg)
+            w["_outcomes"].add(got["outcome"])
             n += 1
             bad = compare(exp, got)
             if bad:
-                fails.append((bad[0].replace("execute:", "runtime:"), dict(w, config=cfg), "%s: %s" % (cfg, bad[1])))
+                fails.append((bad[0].replace("execute:", "runtime:"), dict({k: v for k, v in w.items() if k != "_outcomes"}, config=cfg), "%s: %s" % (cfg, bad[1])))
         for cfg, asyn in (("executor-threadpool", False), ("executor-asyncio", True)):
             r, t, f, ex = explore(H.make_schema(dset, asynchronous=asyn), query, variables, world, cfg, exp, cap, w)
             n += r
@@ -80,6 +84,11 @@ def _chunk(args):
                     n += r2
                     orders += r2
                     fails += f2
+        # whatever reading a configuration takes where the specification leaves a choice (a request failure or a field error for an unrepresentable
+        # leaf), all configurations take the same one
+        outs = {o for o in w.pop("_outcomes", set()) if o in ("result", "exception")}
+        if len(outs) > 1:
+            fails.append(("runtime:configurations-agree-on-the-kind-of-outcome", dict(w), "for the same request some configurations return a result and others fail the request"))
     return n, orders, exhaustive, tmax, fails, tp_tasks
 
 
